@@ -896,6 +896,7 @@ def expr_cases(rnd, n):
         out.append(H3 + pre + "float[64] fv2 = 0.25;\nbool t = %s;\nif (t) { x q[0]; } else { y q[0]; }\nrx(t) q[1];\nbool t2 = false;\nt2 = %s;\nrx(t2) q[2];\n"
                    "const bool t3 = %s;\nrx(t3) q[3];\ndef f(bool fb) -> bool { return fb; }\nbool t4 = f(%s);\nrx(t4) q[4];\n" % (v, v, v.replace("fv2", "0.25"), v))
     out += cast_use_cases()
+    out += folded_value_cases()
     ops2 = ["+", "-", "*", "/", "%", "==", "!=", "<", ">", "<=", ">=", "&&", "||", "^", "&", "|", "<<", ">>"]
     lits = ["0", "1", "2", "3", "5", "-1", "-4", "true", "false", "1.5", "-2.5", "0.0", "pi"]
     for op in ops2:
@@ -1192,6 +1193,35 @@ def cast_use_cases():
         if not ty.startswith("const"):
             out.append(H3 + pre + "%s m;\nm = %s;\n" % (ty, e) + "\n".join(uses[:4]) + "\n")
             out.append(H3 + pre + "def f(%s a) -> %s { return a; }\n%s m = f(%s);\n" % (ty, ty, ty, e) + "\n".join(uses[:4]) + "\n")
+    return out
+
+
+def folded_value_cases():
+    """values that reach the output through a numpy scalar, a boolean or an initialiser: bit registers declared with a
+    computed initial value (variable, expression, subroutine result, loop variable), boolean register indices, custom
+    gates applied with array elements, elements of uint arrays stored in variables of every type (C01, C03, C07)"""
+    out = []
+    pre = "qubit[4] q;\nbit[2] c;\nint[8] n = 1;\nbool bt = true;\nbool bf = false;\nconst int[8] k = 2;\n"
+    inits = ["n", "n + 1", "n - 1", "bt", "bf", "!bt", "k", "k - 2", "1 + 0", "-n + 1", "f(q[3])", "2 * n", "n == 1", "true", "1", "0"]
+    subs = "def f(qubit a) -> int[8] { h a; return 1; }\n"
+    for e in inits:
+        for ty in ("bit", "bit[1]", "bit[3]"):
+            out.append(H3 + pre + subs + "%s b = %s;\nb[0] = measure q[0];\nif (b[0] == 1) { x q[1]; }\n" % (ty, e))
+    out.append(H3 + pre + "for int i in [0:1] { if (i == 1) { bit[2] t = i + n; t[i] = measure q[i]; } }\nh q[0];\n")
+    out.append(H3 + pre + "if (bt) { bit w = n; w[0] = measure q[2]; }\nswitch (n) { case 1 { bit[2] u = k; u[1] = measure q[0]; } default { x q[0]; } }\n")
+    for idx in ("bt", "bf", "!bf", "bt && bt", "n == 1", "true", "false"):
+        out.append(H3 + pre + "h q[%s];\ncx q[2], q[%s];\nc[%s] = measure q[3];\nreset q[%s];\nbarrier q[%s];\n" % (idx, idx, idx, idx, idx))
+        out.append(H3 + pre + "def g(qubit a) { h a; }\ng(q[%s]);\nlet al = q[1:3];\nx al[%s];\n" % (idx, idx))
+    arrs = [("int[32]", "{1, 2, 3}"), ("int[8]", "{-1, 0, 3}"), ("uint[8]", "{1, 2, 3}"), ("bool", "{true, false, true}"), ("float[64]", "{0.5, 1.5, -2.25}")]
+    for ty, lit in arrs:
+        a = "array[%s, 3] arr = %s;\n" % (ty, lit)
+        out.append(H3 + pre + a + "gate g(t) x { rx(t) x; }\ngate g2(s, t) x, y { rz(s + t) x; cx x, y; ry(t) y; }\n"
+                   "g(arr[1]) q[0];\ng(arr[2]) q[1];\ng2(arr[0], arr[2]) q[2], q[3];\nfor int i in [0:2] { g(arr[i]) q[i]; }\ninv @ g(arr[0]) q[0];\npow(2) @ g2(arr[1], 0.5) q[0], q[1];\n")
+        for vt in ("int[8]", "int[32]", "uint[4]", "float[64]", "bool", "bit"):
+            use = "b[0] = measure q[0];" if vt == "bit" else "rx(b) q[0];"
+            out.append(H3 + pre + a + "%s b = arr[1];\n%s\n%s b2 = arr[2];\n%s\n" % (vt, use, vt, use.replace("b", "b2") if vt != "bit" else "b2[0] = measure q[1];"))
+            if vt != "bit":
+                out.append(H3 + pre + a + "%s b;\nb = arr[0];\nrz(b) q[1];\ndef h2(%s z, qubit a) { rx(z) a; }\nh2(arr[2], q[2]);\n" % (vt, vt))
     return out
 
 
